@@ -50,18 +50,41 @@ def shard_timeout(pid, tier):
 # ---------------------------------------------------------------- case -> callables
 
 
+class _LazyNS(dict):
+    """ns name -> module; scipy namespaces are imported on demand (secondary interpreter only)."""
+
+    def __init__(self, which, base):
+        super().__init__(base)
+        self.which = which
+
+    def __missing__(self, ns):
+        import importlib
+
+        if not ns.startswith("scipy"):
+            raise KeyError(ns)
+        if self.which == "np":
+            parts = ns.split(".")
+            mod = importlib.import_module(".".join(parts[:2]))
+            for p_ in parts[2:]:
+                mod = getattr(mod, p_)
+        else:
+            mod = importlib.import_module("autograd." + ns)
+        self[ns] = mod
+        return mod
+
+
 def _mods(which):
     if which == "np":
         import numpy.fft
         import numpy.linalg
 
-        return {"numpy": _NpShim(), "linalg": onp.linalg, "fft": onp.fft}
+        return _LazyNS("np", {"numpy": _NpShim(), "linalg": onp.linalg, "fft": onp.fft})
     common.setup_repo()
     import autograd.numpy as anp
     import autograd.numpy.fft as afft
     import autograd.numpy.linalg as ala
 
-    return {"numpy": anp, "linalg": ala, "fft": afft}
+    return _LazyNS("ag", {"numpy": anp, "linalg": ala, "fft": afft})
 
 
 class _NpShim:
@@ -142,6 +165,13 @@ def build(case_dec, which):
 
     if form == "function":
         f = getattr(mod, prim)
+        if which == "np" and ns == "scipy.signal" and prim == "convolve":
+            # autograd.scipy.signal.convolve is its own function (axes / dot_axes options, N-d 'valid'):
+            # the reference is its raw primal, never its rule
+            common.setup_repo()
+            import autograd.scipy.signal as _sig
+
+            f = _sig.convolve.fun
         return (lambda x: finish(f(*expand(x), **kwargs))), x0
     if form == "method":
 
@@ -247,11 +277,19 @@ def _herm(x):
     return (x + onp.conj(onp.swapaxes(x, -1, -2))) / 2
 
 
+def _restrict(v, domain):
+    if domain == "herm":
+        return _herm(onp.asarray(v))
+    if domain == "tril":
+        return onp.tril(onp.asarray(v))
+    if domain == "triu":
+        return onp.triu(onp.asarray(v))
+    return v
+
+
 def _direction(rng, x0, domain):
     v = rand_like(rng, x0)
-    if domain == "herm":
-        v = _herm(onp.asarray(v))
-    return v
+    return _restrict(v, domain)
 
 
 def _exc_name(e):
@@ -263,8 +301,11 @@ SUSPECT = ("NameError", "UnboundLocalError", "AttributeError", "IndexError", "Ke
 
 def prepare(case_dec, allow_empty=False):
     """Common first stage: build callables, check that NumPy accepts the call, build realified F."""
-    ncall, x0 = build(case_dec, "np")
-    acall, _ = build(case_dec, "ag")
+    try:
+        ncall, x0 = build(case_dec, "np")
+        acall, _ = build(case_dec, "ag")
+    except (AttributeError, ImportError) as e:
+        return None, Outcome("not_judged", "no_such_function", detail=str(e)[:100])
     if isinstance(x0, (int, onp.integer, bool)) or not is_float_valued(x0):
         return None, Outcome("not_judged", "nonfloat_argument")
     try:
@@ -346,13 +387,13 @@ def eval_rev(case_dec, rng, K=3, full_max=24, check_values=True):
     gg = realify(conj_tree(g))
     n = xf.size
     dirs = []
-    if domain != "herm":
+    if domain not in ("herm", "tril", "triu"):
         if n <= full_max:
             dirs = [("e%d" % i, onp.eye(n)[i]) for i in range(n)]
         else:
             idx = rng.choice(n, size=min(6, n), replace=False)
             dirs = [("e%d" % i, onp.eye(n)[i]) for i in idx]
-    if point == "regular" or domain == "herm":
+    if point == "regular" or domain in ("herm", "tril", "triu"):
         for k in range(K):
             dirs.append(("v%d" % k, realify(_direction(rng, x0, domain))))
     elif n > full_max:
@@ -755,6 +796,17 @@ def make_cases(pid, tier, seed):
     mode = MODE[pid]
     reps = 1 if tier == "quick" else 4
     out = []
+    import os
+
+    if os.environ.get("VF_SCIPY") == "1":
+        # secondary interpreter: only the autograd.scipy catalogue
+        for rep in range(reps):
+            rng = onp.random.Generator(onp.random.PCG64([seed, rep, 78]))
+            cs = list(catalogue.scipy_cases(rng))
+            for c in cs:
+                c["rep"] = rep
+            out.extend(cs)
+        return [c for c in out if c.get("argnum") is not None]
     for rep in range(reps):
         rng = onp.random.Generator(onp.random.PCG64([seed, rep, 77]))
         if mode in ("rev", "fwd", "order2"):
@@ -849,6 +901,12 @@ def _record(res, pid, c, o, mode, sample_every=400):
                 cnt["order2_" + m] = cnt.get("order2_" + m, 0) + 1
         if res["evaluations"] % sample_every == 1:
             res["samples"].append({"sig": sig, "args": [common.brief(a, 160) for a in c["args"]], "kwargs": common.brief(c["kwargs"], 160), "outcome": "ok"})
+    elif o.status == "violation" and c["ns"].startswith("scipy") and c["ns"] != "scipy.signal":
+        # autograd.scipy.{special,stats,linalg} are not named by the property statements (only
+        # autograd.numpy/.linalg/.fft and, through the anchors of C01, scipy.signal): observations there
+        # are reported in the evidence, never as verdicts
+        res["sets"].setdefault("outside_statement_observations", set()).add("%s.%s %s %s: %s" % (c["ns"], c["prim"], mode, o.symptom, (o.detail or "")[:120]))
+        res["counters"]["outside_statement_observations"] = res["counters"].get("outside_statement_observations", 0) + 1
     elif o.status == "violation":
         sig["symptom"] = o.symptom
         res["violations"].append({"sig": sig, "case": encode_case(c), "detail": o.detail})
@@ -904,6 +962,19 @@ def replay(pid, case_enc):
             break
     res["sets"] = {k: sorted(v) for k, v in res["sets"].items()}
     return res
+
+
+SECONDARY = "/opt/veriftools/pyvenv/bin/python"
+
+
+def secondary_jobs(pid, tier, seed):
+    """Extra worker under the secondary interpreter (CPython 3.11, other NumPy, SciPy present): the
+    autograd.scipy primitives (signal.convolve is an anchor of C01) can only be executed there."""
+    import os
+
+    if pid not in ("C01", "C02", "C04", "C05", "C07") or not os.path.exists(SECONDARY):
+        return []
+    return [("scipy", SECONDARY, {"VF_SCIPY": "1"}, [pid, "--tier", tier, "--seed", str(seed), "--shard", "0", "--nshards", "1"])]
 
 
 def post(pid, tier, agg):
